@@ -192,7 +192,8 @@ def gen_c17(rnd, n, thorough=False):
             layout = CLI_LAYOUTS[rnd.pick(['two_1s', 'three_2s'])]
             for j in range(3):
                 lines += fill_ops(rnd, 's/i1/f%d.wsp' % j, layout, 2, 0x3f000000, density=0.7, inconsistent=False)
-            lines.append("conhttp s/i1/f0.wsp %d @" % rnd.randint(3, 8))
+            # (half of the time against a server in a process of its own that was given a relative base directory)
+            lines.append("conhttp s/i1/f0.wsp %d @%s" % (rnd.randint(3, 8), rnd.pick(['', ' rel'])))
         cases.append({'id': 'c17-%d' % c, 'lines': lines, 'tags': {'kind': kind}})
     return cases
 
